@@ -64,12 +64,16 @@ structure Leaf where
   refAttr : Bool         -- some attribute is a reference attribute
   deriving DecidableEq, Repr, Inhabited
 
-/-- A node of a graph or function; `bodies` are its graph-valued attributes in attribute order
-(nesting depth 1 is modelled). -/
-structure Node where
+/-- A node of a graph or function; `bodies` are its graph-valued attributes in attribute order.  The nodes
+of the subgraphs have type `α`: `Leaf` for innermost subgraphs, again `Node …` for subgraphs whose nodes own
+subgraphs themselves (`NodeD d`: nesting depth at most `d`, every `d`). -/
+structure Node (α : Type) where
   leaf : Leaf
-  bodies : List (List Leaf)
+  bodies : List (List α)
   deriving DecidableEq, Repr, Inhabited
+
+/-- `ir.from_proto`: a `NodeProto` has no version field. -/
+def eraseLeaf (l : Leaf) : Leaf := { l with version := none }
 
 /-! ## Adapters -/
 
@@ -187,22 +191,35 @@ def visitLeaves (dfltV : Option Nat) (target : Nat) : List Leaf → List Leaf ×
       let (out', e) := visitLeaves dfltV target rest
       (out ++ out', e)
 
+/-- What the converter needs to know about the nodes of a subgraph: how `visit_graph_or_function` acts on a
+list of them (default version, target), how `from_proto` erases their version stamps, and which nodes they
+contain (themselves and, recursively, the nodes of their subgraphs, in visiting order). -/
+class Inner (α : Type) where
+  vis : Option Nat → Nat → List α → List α × Option Err
+  erase : α → α
+  leaves : α → List Leaf
+
+instance : Inner Leaf := ⟨visitLeaves, eraseLeaf, fun l => [l]⟩
+
+section generic
+variable {α : Type} [Inner α]
+
 /-- `for attr in node.attributes.values(): visit_attribute(attr)` — bodies in order, stop at the first error. -/
-def visitBodies (dfltV : Option Nat) (target : Nat) : List (List Leaf) → List (List Leaf) × Option Err
+def visitBodies (dfltV : Option Nat) (target : Nat) : List (List α) → List (List α) × Option Err
   | [] => ([], none)
   | b :: rest =>
-    match visitLeaves dfltV target b with
+    match Inner.vis dfltV target b with
     | (b', some e) => (b' :: rest, some e)
     | (b', none) =>
       let (rest', e) := visitBodies dfltV target rest
       (b' :: rest', e)
 
-def newNode (o : Op) (v : Nat) : Node := { leaf := newLeaf o v, bodies := [] }
+def newNode (o : Op) (v : Nat) : Node α := { leaf := newLeaf o v, bodies := [] }
 
-/-- The step loop for a graph/function-level node.  On the no-replacement path the subgraphs are
+/-- The step loop for a node that may own subgraphs.  On the no-replacement path the subgraphs are
 visited *before* `node.version = to_version`; an error raised inside a subgraph is a
 `VersionConverterError`, caught by the `try` around `visit_node`: the step ends without stamping. -/
-def nodeSteps (dfltV : Option Nat) (target : Nat) : Nat → Nat → Node → List Node
+def nodeSteps (dfltV : Option Nat) (target : Nat) : Nat → Nat → Node α → List (Node α)
   | 0, _, n => [n]
   | k + 1, v, n =>
     match adapt n.leaf.op v with
@@ -214,7 +231,7 @@ def nodeSteps (dfltV : Option Nat) (target : Nat) : Nat → Nat → Node → Lis
       | (bs, none) =>
         nodeSteps dfltV target k (v + 1) { leaf := { n.leaf with version := some (v + 1) }, bodies := bs }
 
-def visitNode (dfltV : Option Nat) (target : Nat) (n : Node) : List Node × Option Err :=
+def visitNode (dfltV : Option Nat) (target : Nat) (n : Node α) : List (Node α) × Option Err :=
   if !n.leaf.dflt then ([n], none)
   else match n.leaf.version.or dfltV with
     | none => ([n], some .noVersion)
@@ -223,7 +240,8 @@ def visitNode (dfltV : Option Nat) (target : Nat) (n : Node) : List Node × Opti
       else if target < nv then ([n], some .downgrade)
       else (nodeSteps dfltV target (target - nv) nv n, none)
 
-def visitGraph (dfltV : Option Nat) (target : Nat) : List Node → List Node × Option Err
+/-- `visit_graph_or_function` (the converter recurses: the same function is applied to subgraphs). -/
+def visitGraph (dfltV : Option Nat) (target : Nat) : List (Node α) → List (Node α) × Option Err
   | [] => ([], none)
   | n :: rest =>
     match visitNode dfltV target n with
@@ -232,19 +250,39 @@ def visitGraph (dfltV : Option Nat) (target : Nat) : List Node → List Node × 
       let (out', e) := visitGraph dfltV target rest
       (out ++ out', e)
 
+def eraseNode (n : Node α) : Node α := { leaf := eraseLeaf n.leaf, bodies := n.bodies.map (·.map Inner.erase) }
+
+/-- A node and the nodes of its subgraphs (recursively), in visiting order. -/
+def Node.leaves (n : Node α) : List Leaf := n.leaf :: n.bodies.flatten.flatMap Inner.leaves
+
+instance instInnerNode : Inner (Node α) := ⟨visitGraph, eraseNode, Node.leaves⟩
+
+end generic
+
+/-- Nodes of nesting depth at most `d`. -/
+def NodeD : Nat → Type
+  | 0 => Leaf
+  | d + 1 => Node (NodeD d)
+
+@[instance_reducible] def innerD : (d : Nat) → Inner (NodeD d)
+  | 0 => inferInstanceAs (Inner Leaf)
+  | d + 1 => @instInnerNode (NodeD d) (innerD d)
+
+instance (d : Nat) : Inner (NodeD d) := innerD d
+
 /-! ## Model level -/
 
-structure Func where
+structure Func (α : Type) where
   declared : Option Nat     -- `opset_imports[""]`
   aionnx : Option Nat       -- `opset_imports["ai.onnx"]`
-  nodes : List Node
+  nodes : List (Node α)
   deriving DecidableEq, Repr, Inhabited
 
-structure Model where
+structure Model (α : Type) where
   declared : Option Nat
   aionnx : Option Nat
-  nodes : List Node
-  funcs : List Func
+  nodes : List (Node α)
+  funcs : List (Func α)
   inputs : List String      -- graph inputs (names, in order)
   inits : List String       -- initializer names (insertion order)
   deriving DecidableEq, Repr, Inhabited
@@ -255,23 +293,26 @@ def getOnnxOpsetVersion (declared aionnx : Option Nat) : Except Err (Option Nat)
   | some a, some b => if a ≠ b then .error .importClash else .ok (some a)
   | a, b => .ok (a.or b)
 
+section modelLevel
+variable {α : Type} [Inner α]
+
 /-- `_set_onnx_opset_version` on a function -/
-def Func.setOpset (f : Func) (v : Nat) : Func := { f with declared := some v, aionnx := none }
+def Func.setOpset (f : Func α) (v : Nat) : Func α := { f with declared := some v, aionnx := none }
 /-- `_set_onnx_opset_version` on the model -/
-def Model.setOpset (m : Model) (v : Nat) : Model := { m with declared := some v, aionnx := none }
+def Model.setOpset (m : Model α) (v : Nat) : Model α := { m with declared := some v, aionnx := none }
 
 /-- The `for function in model.functions.values()` loop of `visit_model`. -/
-def visitFuncs (dfltV : Option Nat) (target : Nat) : List Func → List Func × Option Err
+def visitFuncs (dfltV : Option Nat) (target : Nat) : List (Func α) → List (Func α) × Option Err
   | [] => ([], none)
   | f :: rest =>
     match visitGraph dfltV target f.nodes with
     | (ns, some e) => ({ f with nodes := ns } :: rest, some e)
     | (ns, none) =>
       let (rest', e) := visitFuncs dfltV target rest
-      (({ f with nodes := ns } : Func).setOpset target :: rest', e)
+      (({ f with nodes := ns } : Func α).setOpset target :: rest', e)
 
 /-- `_VersionConverter.visit_model` -/
-def visitModel (target : Nat) (m : Model) : Model × Option Err :=
+def visitModel (target : Nat) (m : Model α) : Model α × Option Err :=
   match getOnnxOpsetVersion m.declared m.aionnx with
   | .error e => (m, some e)
   | .ok dfltV =>
@@ -280,15 +321,15 @@ def visitModel (target : Nat) (m : Model) : Model × Option Err :=
     | (ns, none) =>
       match visitFuncs dfltV target m.funcs with
       | (fs, some e) => ({ m with nodes := ns, funcs := fs }, some e)
-      | (fs, none) => (({ m with nodes := ns, funcs := fs } : Model).setOpset target, none)
+      | (fs, none) => (({ m with nodes := ns, funcs := fs } : Model α).setOpset target, none)
 
 /-- `_version_converter.convert_version(model, target)` -/
-def nativeConvert (target : Nat) (m : Model) : Model × Option Err :=
+def nativeConvert (target : Nat) (m : Model α) : Model α × Option Err :=
   if target > supportedMax || target < supportedMin then (m, some .badTarget)
   else visitModel target m
 
 /-- `version_supported(model, target)` -/
-def versionSupported (m : Model) (target : Nat) : Bool :=
+def versionSupported (m : Model α) (target : Nat) : Bool :=
   match m.declared with
   | none => true
   | some cur => supportedMin ≤ cur && cur ≤ target && target ≤ supportedMax
@@ -307,13 +348,13 @@ def Fallback.truthy : Fallback → Bool
 
 /-- Contract of the ONNX C-API converter on the serialized model: `none` = it raised; `some ns` = the
 nodes of the model it returned (declaring `target`). -/
-abbrev CApi := Model → Nat → Option (List Node)
+abbrev CApi (α : Type) := Model α → Nat → Option (List (Node α))
 
 /-- `InlinePass` (contract, A-ir) for call depth 1: a call of function `i` is replaced by that function's
 nodes; a called function whose default-domain import differs from the model's makes the pass raise;
 afterwards `RemoveUnusedFunctionsPass` leaves no function (every function is inlined or unused), and the
 `ai.onnx` import key is normalised to `""`. -/
-def inlineNodes (funcs : List Func) : List Node → List Node
+def inlineNodes (funcs : List (Func α)) : List (Node α) → List (Node α)
   | [] => []
   | n :: rest =>
     match n.leaf.op with
@@ -323,7 +364,7 @@ def inlineNodes (funcs : List Func) : List Node → List Node
       | none => n :: inlineNodes funcs rest
     | _ => n :: inlineNodes funcs rest
 
-def calledClash (m : Model) : Bool :=
+def calledClash (m : Model α) : Bool :=
   m.nodes.any (fun n => match n.leaf.op with
     | .call i => match m.funcs[i]? with
       | some f => (match f.declared, m.declared with
@@ -333,31 +374,28 @@ def calledClash (m : Model) : Bool :=
     | _ => false)
 
 /-- The inliner adds a called function's default-domain import when the model has none. -/
-def firstCalledDecl (m : Model) : Option Nat :=
+def firstCalledDecl (m : Model α) : Option Nat :=
   m.nodes.findSome? (fun n => match n.leaf.op with
     | .call i => (m.funcs[i]?).bind (·.declared)
     | _ => none)
 
 /-- `RemoveUnusedOpsetsPass` drops the `ai.onnx` key (no node carries that domain string). -/
-def inlineModel (m : Model) : Except Err Model :=
+def inlineModel (m : Model α) : Except Err (Model α) :=
   if calledClash m then .error .inlineClash
   else .ok { m with nodes := inlineNodes m.funcs m.nodes, funcs := [],
                     declared := m.declared.or (firstCalledDecl m), aionnx := none }
 
-/-- `ir.from_proto`: a `NodeProto` has no version field. -/
-def eraseLeaf (l : Leaf) : Leaf := { l with version := none }
-def eraseNode (n : Node) : Node := { leaf := eraseLeaf n.leaf, bodies := n.bodies.map (·.map eraseLeaf) }
-def eraseVersions (m : Model) : Model :=
+def eraseVersions (m : Model α) : Model α :=
   { m with nodes := m.nodes.map eraseNode,
            funcs := m.funcs.map (fun f => { f with nodes := f.nodes.map eraseNode }) }
 
 /-- `call_onnx_api` turns initializers that are not inputs into extra inputs (in initializer order). -/
-def capiInputs (m : Model) : List String := m.inputs ++ m.inits.filter (fun i => !m.inputs.contains i)
+def capiInputs (m : Model α) : List String := m.inputs ++ m.inits.filter (fun i => !m.inputs.contains i)
 
 /-- The fallback branch after a successful C-API call: `from_proto`, initializer recovery loop (every
 converted-graph input whose name is an original initializer is registered again), input truncation
 `inputs[: len(model.graph.inputs)]`, `model.graph = converted_model.graph`. -/
-def recoverFallback (m : Model) (target : Nat) (convNodes : List Node) : Model :=
+def recoverFallback (m : Model α) (target : Nat) (convNodes : List (Node α)) : Model α :=
   let convInputs := capiInputs m                      -- C-API contract: inputs returned as given
   let recovered := convInputs.filter (fun i => m.inits.contains i)
   { m with declared := some target, aionnx := none,
@@ -366,7 +404,7 @@ def recoverFallback (m : Model) (target : Nat) (convNodes : List Node) : Model :
            inits := recovered }
 
 /-- `_ConvertVersionPassRequiresInline.call`.  Returns the model, the error, and whether the C API ran. -/
-def requiresInlineCall (fb : Fallback) (target : Nat) (capi : CApi) (m : Model) : Model × Option Err :=
+def requiresInlineCall (fb : Fallback) (target : Nat) (capi : CApi α) (m : Model α) : Model α × Option Err :=
   if m.declared = some target then (m, none)
   else if !fb.truthy || versionSupported m target then nativeConvert target m
   else if !fb.truthy then (m, none)
@@ -378,7 +416,7 @@ def requiresInlineCall (fb : Fallback) (target : Nat) (capi : CApi) (m : Model) 
 and (`Entry.native`) the inner `_version_converter.convert_version`.  For the proto entry the result is
 the state of the *proto*: untouched when an exception propagates, otherwise graph, functions and
 `opset_import` taken from the converted IR model (node versions do not exist in a proto). -/
-def convertVersionApi (e : Entry) (fb : Fallback) (target : Nat) (capi : CApi) (m : Model) : Model × Option Err :=
+def convertVersionApi (e : Entry) (fb : Fallback) (target : Nat) (capi : CApi α) (m : Model α) : Model α × Option Err :=
   match e with
   | .native => nativeConvert target m
   | .ir =>
@@ -393,6 +431,8 @@ def convertVersionApi (e : Entry) (fb : Fallback) (target : Nat) (capi : CApi) (
       match requiresInlineCall fb target capi m1 with
       | (_, some er) => (m0, some er)
       | (m2, none) => (eraseVersions m2, none)
+
+end modelLevel
 
 /-! ## The scale rewrite of `groupnormalization_20_21` at tensor level (row-major lists) -/
 
@@ -499,10 +539,8 @@ def pmLeaves {β} (μ : Op → Nat → β) (d : Nat) : List Leaf → List β
   | [] => []
   | l :: ls => if l.op.isAux then pmLeaves μ d ls else μ l.op (l.readAt d) :: pmLeaves μ d ls
 
-/-- A node and the nodes of its subgraphs, in visiting order. -/
-def Node.leaves (n : Node) : List Leaf := n.leaf :: n.bodies.flatten
-
-def pmNodes {β} (μ : Op → Nat → β) (d : Nat) (ns : List Node) : List β := pmLeaves μ d (ns.flatMap Node.leaves)
+def pmNodes {β α} [Inner α] (μ : Op → Nat → β) (d : Nat) (ns : List (Node α)) : List β :=
+  pmLeaves μ d (ns.flatMap Node.leaves)
 
 /-- What the theorems ask of a node of a model declaring `s` that is converted to `t`:
 no reference attribute, effective version at most `t`, every step from there to `t` good for `μ`. -/
@@ -511,15 +549,21 @@ structure LeafPre {β} (μ : Op → Nat → β) (s t : Nat) (l : Leaf) : Prop wh
   le : l.dflt = true → l.eff s ≤ t
   good : l.dflt = true → ∀ v', l.eff s ≤ v' → v' < t → Good μ l.op v'
 
-/-- Nodes with subgraphs are control-flow operators (no adapter is registered for them). -/
-structure NodePre {β} (μ : Op → Nat → β) (s t : Nat) (n : Node) : Prop where
+/-- Nodes with subgraphs are control-flow operators (no adapter is registered for them).  `P` is the
+corresponding requirement on the nodes of the subgraphs (`LeafPre`, or `NodePre` again: `PreD`). -/
+structure NodePre {β α} [Inner α] (μ : Op → Nat → β) (s t : Nat) (P : α → Prop) (n : Node α) : Prop where
   leaf : LeafPre μ s t n.leaf
   ctrl : n.bodies ≠ [] → ∃ name, n.leaf.op = .plain name
-  bodies : ∀ b ∈ n.bodies, ∀ l ∈ b, LeafPre μ s t l
+  bodies : ∀ b ∈ n.bodies, ∀ a ∈ b, P a
   /-- the converter never looks into a custom-domain node: it must not hide ONNX operators -/
   customFlat : n.leaf.dflt = false → n.bodies = []
-  /-- a node and the nodes of its subgraphs are written for the same opset -/
-  sameEff : n.leaf.dflt = true → ∀ b ∈ n.bodies, ∀ l ∈ b, l.dflt = true → l.eff s = n.leaf.eff s
+  /-- a node and the nodes of its subgraphs (at every depth) are written for the same opset -/
+  sameEff : n.leaf.dflt = true → ∀ b ∈ n.bodies, ∀ a ∈ b, ∀ l ∈ Inner.leaves a, l.dflt = true → l.eff s = n.leaf.eff s
+
+/-- `NodePre` at every nesting depth. -/
+def PreD {β} (μ : Op → Nat → β) (s t : Nat) : (d : Nat) → NodeD d → Prop
+  | 0 => fun l => LeafPre μ s t l
+  | d + 1 => fun n => NodePre (α := NodeD d) μ s t (PreD μ s t d) n
 
 /-- A node of a self-consistent model declaring `s` (the inputs the property quantifies over): written
 for `s` (stamp unset or `s`), no reference attribute, and every step from `s` upwards good for `μ`
@@ -529,20 +573,27 @@ structure SrcLeaf {β} (μ : Op → Nat → β) (s : Nat) (l : Leaf) : Prop wher
   noRef : l.dflt = true → l.refAttr = false
   good : l.dflt = true → ∀ v', s ≤ v' → Good μ l.op v'
 
-structure SrcNode {β} (μ : Op → Nat → β) (s : Nat) (n : Node) : Prop where
+structure SrcNode {β α} (μ : Op → Nat → β) (s : Nat) (Q : α → Prop) (n : Node α) : Prop where
   leaf : SrcLeaf μ s n.leaf
   ctrl : n.bodies ≠ [] → ∃ name, n.leaf.op = .plain name
-  bodies : ∀ b ∈ n.bodies, ∀ l ∈ b, SrcLeaf μ s l
+  bodies : ∀ b ∈ n.bodies, ∀ a ∈ b, Q a
   customFlat : n.leaf.dflt = false → n.bodies = []
 
-/-- The model handed to `_ConvertVersionPassRequiresInline` (functions already inlined). -/
-structure SelfConsistent {β} (μ : Op → Nat → β) (s : Nat) (m : Model) : Prop where
+/-- `SrcNode` at every nesting depth. -/
+def SrcD {β} (μ : Op → Nat → β) (s : Nat) : (d : Nat) → NodeD d → Prop
+  | 0 => fun l => SrcLeaf μ s l
+  | d + 1 => fun n => SrcNode (α := NodeD d) μ s (SrcD μ s d) n
+
+/-- The model handed to `_ConvertVersionPassRequiresInline` (functions already inlined); its nodes own
+subgraphs of nesting depth at most `d`. -/
+structure SelfConsistent {β} (μ : Op → Nat → β) (s : Nat) {d : Nat} (m : Model (NodeD d)) : Prop where
   declared : m.declared = some s
   noAi : m.aionnx = none
   inlined : m.funcs = []
-  nodes : ∀ n ∈ m.nodes, SrcNode μ s n
+  nodes : ∀ n ∈ m.nodes, SrcD μ s (d + 1) n
 
-/-- Every default-domain node of the model (subgraphs included) is written for `t`. -/
-def AllAt (t : Nat) (ns : List Node) : Prop := ∀ n ∈ ns, ∀ l ∈ n.leaves, l.dflt = true → l.eff t = t
+/-- Every default-domain node of the model (subgraphs of every depth included) is written for `t`. -/
+def AllAt {α} [Inner α] (t : Nat) (ns : List (Node α)) : Prop :=
+  ∀ n ∈ ns, ∀ l ∈ n.leaves, l.dflt = true → l.eff t = t
 
 end OV.C10
